@@ -29,9 +29,9 @@ def ghost(pattern):
 
 
 class Builder:
-    def __init__(self, ctx, needle, fn_label, ghosts):
+    def __init__(self, ctx, needle, fn_label, ghosts, self_type=None):
         self.ctx = ctx
-        self.E, self.err = ctx.load(needle, ghosts=ghosts)
+        self.E, self.err = ctx.load(needle, ghosts=ghosts, self_type=self_type)
         self.fn_label = fn_label
         self.results = {}
 
@@ -349,4 +349,32 @@ def wal_append(ctx):
                                  "span": None, "call": "return", "path": E.path_of_model(model),
                                  "model": oblig.model_summary(E, model)}
                     break
+    return b.results
+
+
+def index_builder(ctx):
+    """SegmentIndexBuilder::add_segment_entry: the read-modify-write of segments.idx is one
+    critical section of the shard's flush lock (the lock compaction's hand-over also takes)"""
+    ghosts = {"locked": ghost(r"Mutex::<\(\)>::lock$"), "guard_dropped": ghost(r"^drop\(_guard\)$")}
+    b = Builder(ctx, "segment-segment_index_builder-{impl#0}-add_segment_entry-{closure#0}.",
+                "SegmentIndexBuilder::add_segment_entry", ghosts)
+    E, q = b.E, ctx.q
+    r = b.mk("index-rmw-under-lock", "add_segment_entry loads, extends and saves segments.idx entirely while holding the "
+             "shard's flush coordination lock (acquired before SegmentIndex::load, guard alive until after save)")
+    if r:
+        evs = oblig.events(E, r"SegmentIndex::load$") + oblig.events(E, r"SegmentIndex::insert_entry$") + \
+            oblig.events(E, r"SegmentIndex::save$")
+        locks = oblig.events(E, r"Mutex::<\(\)>::lock$")
+        if oblig.need_anchor(r, evs, "SegmentIndex::load / insert_entry / save") and \
+                oblig.need_anchor(r, locks, "flush_coordination_lock.lock()"):
+            if len({e.short for e in evs}) < 3:
+                r.status = "inconclusive"
+                r.notes.append("expected load, insert_entry and save in add_segment_entry")
+            else:
+                def phi(ev):
+                    a, d = ev.env.get("@locked"), ev.env.get("@guard_dropped")
+                    if a is None or d is None:
+                        return None
+                    return z3.And(a, z3.Not(d))
+                oblig.guarded(r, E, q, evs, phi, "segments.idx read or written outside the flush lock")
     return b.results
